@@ -168,17 +168,44 @@ func Create(site, name string) (*os.File, error) {
 	return OpenFile(site, name, os.O_RDWR|os.O_CREATE|os.O_TRUNC, 0666)
 }
 
+// WriteFile is what os.WriteFile is underneath: open with O_TRUNC, then write,
+// then close. The two steps are separate scheduler points (kinds "wfopen" and
+// "writefile"), so another goroutine's rename or read of the same path can fall
+// between them, and so can a crash (the file is then empty).
 func WriteFile(site, name string, data []byte, perm os.FileMode) error {
-	s, op, torn, err := fsEnter(site, "writefile", name, "", true, len(data), 0)
+	s, op, torn, err := fsEnter(site, "wfopen", name, "", true, 0, 0)
 	if err != nil {
 		return &fs.PathError{Op: "open", Path: name, Err: err}
 	}
 	if torn > 0 {
-		_ = os.WriteFile(name, data[:cut(len(data), torn)], perm)
+		if torn >= 500 {
+			if f, e := os.OpenFile(name, os.O_WRONLY|os.O_CREATE|os.O_TRUNC, perm); e == nil {
+				f.Close()
+			}
+		}
+		fsDie(s, op)
+		return &fs.PathError{Op: "open", Path: name, Err: ErrNodeDead}
+	}
+	f, e := os.OpenFile(name, os.O_WRONLY|os.O_CREATE|os.O_TRUNC, perm)
+	fsDone(s, op, e)
+	if e != nil {
+		return e
+	}
+	s, op, torn, err = fsEnter(site, "writefile", name, "", true, len(data), 0)
+	if err != nil {
+		f.Close()
+		return &fs.PathError{Op: "write", Path: name, Err: err}
+	}
+	if torn > 0 {
+		_, _ = f.Write(data[:cut(len(data), torn)])
+		f.Close()
 		fsDie(s, op)
 		return &fs.PathError{Op: "write", Path: name, Err: ErrNodeDead}
 	}
-	e := os.WriteFile(name, data, perm)
+	_, e = f.Write(data)
+	if e1 := f.Close(); e == nil {
+		e = e1
+	}
 	fsDone(s, op, e)
 	return e
 }
